@@ -199,10 +199,10 @@ Section Wired.
     | XService n at_ ins =>
       preN N (pt p) = [pp p; pp p + 1] /\ postN N (pt p) = [pp p + 2] /\
       cbsN N (pt p) = CbSF (pa p) :: xcbs /\
-      (exists a, nth_error (ns_apis N) (pa p) = Some a /\ api_like (svc_api n at_ ins ctx (pa p)) a) /\
+      nth_error (ns_apis N) (pa p) = Some (svc_api n at_ ins ctx (pa p)) /\
       dict_get ident_eqb (IUuid (pa p)) (ns_place_dict N) = Some (pp p + 1)
     | XCall t at_ ins body =>
-      (exists a, nth_error (ns_apis N) (pa p) = Some a /\ api_like (call_api t at_ ins ctx (pa p)) a) /\
+      nth_error (ns_apis N) (pa p) = Some (call_api t at_ ins ctx (pa p)) /\
       wired_block wired N (pa p) (CbTF (pa p) :: xcbs) body (body_pos p)
     | XParallel bs =>
       preN N (pt p) = cat_of (fun b q => [xplace b q]) bs (par_pos p) /\
@@ -437,17 +437,17 @@ Proof.
   intros N N' e extra.
   induction s as [n a i|t a i body IH|bs IH|e0 p f IHp IHf|e0 b IH|v l b IH|v l c IH] using xstmt_ind';
     intros Hf p0 ctx xcbs Hag He Hw; try discriminate Hf.
-  - cbn [wired exit_t ntrans napis] in *. destruct Hw as (H1 & H2 & H3 & (a0 & Ha0 & Hl) & H5).
+  - cbn [wired exit_t ntrans napis] in *. destruct Hw as (H1 & H2 & H3 & Ha0 & H5).
     destruct Hag as (Ht & Ha & d & Hd & Hk).
     destruct (Ht (pt p0) ltac:(lia)) as (E1 & E2 & E3).
     split; [congruence|]. split; [congruence|]. split; [rewrite E3, H3; reflexivity|]. split.
-    + exists a0. split; [rewrite Ha by lia; exact Ha0|exact Hl].
+    + rewrite Ha by lia. exact Ha0.
     + rewrite Hd, dict_get_skip; [exact H5|].
       eapply Forall_impl; [|exact Hk]. intros kv (k & E & Hle). exists k. split; [exact E|lia].
   - apply frag_call in Hf. destruct Hf as [_ Hf].
-    cbn [wired exit_t] in *. destruct Hw as ((a0 & Ha0 & Hl) & Hw). rewrite ntrans_call, napis_call in *.
+    cbn [wired exit_t] in *. destruct Hw as (Ha0 & Hw). rewrite ntrans_call, napis_call in *.
     split.
-    + exists a0. split; [|exact Hl]. destruct Hag as (_ & Ha & _). rewrite Ha by lia. exact Ha0.
+    + destruct Hag as (_ & Ha & _). rewrite Ha by lia. exact Ha0.
     + change (CbTF (pa p0) :: xcbs ++ (if Nat.eqb e (last_of exit_t 0 body (body_pos p0)) then extra else []))
         with ((CbTF (pa p0) :: xcbs) ++ (if Nat.eqb e (exit_b body (body_pos p0)) then extra else [])).
       apply (wired_agree_block N N' e extra body IH Hf); [|exact He|exact Hw].
